@@ -38,6 +38,7 @@ fn msg_matches(m: &Msg, s: &str) -> bool {
     match m {
         Msg::Exact(e) => e == s,
         Msg::Prefix(p) => s.starts_with(p.as_str()),
+        Msg::Contains(p) => s.contains(p.as_str()),
         Msg::Any => true,
     }
 }
@@ -81,55 +82,70 @@ fn show_leaf(l: &Leaf) -> String {
     format!("{:?} path={:?} span={:?} ({})", l.msg, l.path, l.span, l.kind)
 }
 
+/// Maximum bipartite matching (augmenting paths) between the still-unmatched expected leaves `es`
+/// and the still-unused observed leaves, over the edges `ok(e, o)`. Greedy assignment would let a
+/// leaf with a vague expectation take an observed leaf that a stricter one needs; a maximum
+/// matching finds the perfect assignment whenever one exists.
+fn max_match(es: &[usize], n_obs: usize, used: &[bool], ok: &dyn Fn(usize, usize) -> bool) -> Vec<(usize, usize)> {
+    let mut owner: Vec<Option<usize>> = vec![None; n_obs]; // observed -> index into es
+    fn try_assign(k: usize, es: &[usize], n_obs: usize, used: &[bool], ok: &dyn Fn(usize, usize) -> bool, owner: &mut Vec<Option<usize>>, seen: &mut Vec<bool>) -> bool {
+        for j in 0..n_obs {
+            if used[j] || seen[j] || !ok(es[k], j) {
+                continue;
+            }
+            seen[j] = true;
+            let free = match owner[j] {
+                None => true,
+                Some(k2) => try_assign(k2, es, n_obs, used, ok, owner, seen),
+            };
+            if free {
+                owner[j] = Some(k);
+                return true;
+            }
+        }
+        false
+    }
+    for k in 0..es.len() {
+        let mut seen = vec![false; n_obs];
+        try_assign(k, es, n_obs, used, ok, &mut owner, &mut seen);
+    }
+    owner.iter().enumerate().filter_map(|(j, o)| o.map(|k| (es[k], j))).collect()
+}
+
 /// One-to-one correspondence between expected and observed leaves.
 pub fn check_leaves(expected: &[Leaf], observed: &[ObsLeaf]) -> Vec<Failure> {
     let mut fails = Vec::new();
     let mut used = vec![false; observed.len()];
     let mut matched = vec![false; expected.len()];
-    // predictable messages first (all three passes), so that `Msg::Any` cannot steal a leaf
-    let specific: Vec<usize> = (0..expected.len()).filter(|i| !matches!(expected[*i].msg, Msg::Any)).collect();
-    let vague: Vec<usize> = (0..expected.len()).filter(|i| matches!(expected[*i].msg, Msg::Any)).collect();
-    let order: Vec<usize> = specific.iter().chain(vague.iter()).copied().collect();
-    for group in [&specific, &vague] {
-        // pass 1: everything agrees
-        for &i in group.iter() {
-            let e = &expected[i];
-            if let Some(j) = (0..observed.len()).find(|&j| {
-                !used[j] && msg_matches(&e.msg, &observed[j].msg) && path_matches(&e.path, &observed[j].path) && span_matches(&e.span, &observed[j].span)
-            }) {
-                used[j] = true;
-                matched[i] = true;
-            }
-        }
-        // pass 2: message and location agree, span does not
-        for &i in group.iter() {
-            if matched[i] {
-                continue;
-            }
-            let e = &expected[i];
-            if let Some(j) = (0..observed.len()).find(|&j| !used[j] && msg_matches(&e.msg, &observed[j].msg) && path_matches(&e.path, &observed[j].path)) {
-                used[j] = true;
-                matched[i] = true;
-                fails.push(fail(
-                    span_rule(e),
-                    format!("leaf `{}` has span {:?}, expected {:?} (kind {})", observed[j].text, observed[j].span, e.span, e.kind),
-                ));
-            }
-        }
-        // pass 3: message agrees, location does not
-        for &i in group.iter() {
-            if matched[i] {
-                continue;
-            }
-            let e = &expected[i];
-            if let Some(j) = (0..observed.len()).find(|&j| !used[j] && !matches!(e.msg, Msg::Any) && msg_matches(&e.msg, &observed[j].msg)) {
-                used[j] = true;
-                matched[i] = true;
-                fails.push(fail("C02.R4", format!("leaf `{}` is located at {:?}, expected {:?}", observed[j].text, observed[j].path, e.path)));
-            }
-        }
+    let n = observed.len();
+
+    // pass 1: message, location and span all agree
+    let all: Vec<usize> = (0..expected.len()).collect();
+    let full = |i: usize, j: usize| {
+        msg_matches(&expected[i].msg, &observed[j].msg) && path_matches(&expected[i].path, &observed[j].path) && span_matches(&expected[i].span, &observed[j].span)
+    };
+    for (i, j) in max_match(&all, n, &used, &full) {
+        matched[i] = true;
+        used[j] = true;
     }
-    for &i in &order {
+    // pass 2: message and location agree, the span does not
+    let rest: Vec<usize> = (0..expected.len()).filter(|i| !matched[*i]).collect();
+    let msg_path = |i: usize, j: usize| msg_matches(&expected[i].msg, &observed[j].msg) && path_matches(&expected[i].path, &observed[j].path);
+    for (i, j) in max_match(&rest, n, &used, &msg_path) {
+        matched[i] = true;
+        used[j] = true;
+        let e = &expected[i];
+        fails.push(fail(span_rule(e), format!("leaf `{}` has span {:?}, expected {:?} (kind {})", observed[j].text, observed[j].span, e.span, e.kind)));
+    }
+    // pass 3: the message agrees (for leaves whose message is predicted), the location does not
+    let rest: Vec<usize> = (0..expected.len()).filter(|i| !matched[*i] && !matches!(expected[*i].msg, Msg::Any)).collect();
+    let msg_only = |i: usize, j: usize| msg_matches(&expected[i].msg, &observed[j].msg);
+    for (i, j) in max_match(&rest, n, &used, &msg_only) {
+        matched[i] = true;
+        used[j] = true;
+        fails.push(fail("C02.R4", format!("leaf `{}` is located at {:?}, expected {:?}", observed[j].text, observed[j].path, expected[i].path)));
+    }
+    for i in 0..expected.len() {
         if !matched[i] {
             fails.push(fail("C02.R2", format!("expected leaf not reported: {}", show_leaf(&expected[i]))));
         }
